@@ -32,7 +32,18 @@ func C17_upgrader_results() {
 	}
 	req = append(req, "\r\nSec-WebSocket-Extensions: ext-a; p="...)
 	req = append(req, par...)
-	req = append(req, ", ext-b\r\n\r\n"...)
+	// a read buffer whose configured size (300) is not what the pool hands out (512), and an
+	// extensions line longer than the former but shorter than the latter
+	long := vChoose("longline", 2) == 1
+	if long {
+		req = append(req, ", ext-b; pad="...)
+		for i := 0; i < 300; i++ {
+			req = append(req, 'x')
+		}
+		req = append(req, "\r\n\r\n"...)
+	} else {
+		req = append(req, ", ext-b\r\n\r\n"...)
+	}
 	u := Upgrader{Protocol: func(p []byte) bool { return len(p) == 2 }}
 	switch vChoose("path", 2) {
 	case 0:
@@ -45,6 +56,9 @@ func C17_upgrader_results() {
 			}
 			return httphead.Option{}, nil
 		}
+	}
+	if long {
+		u.ReadBufferSize = 300
 	}
 	conn := &vConn{in: req}
 	path1 := u.Negotiate != nil
